@@ -468,7 +468,7 @@ func Select(a, i *Term) *Term {
 		if same(a.Args[1], i) {
 			return a.Args[2]
 		}
-		if a.Args[1].lit != nil && i.lit != nil {
+		if (a.Args[1].lit != nil && i.lit != nil) || linDistinct(a.Args[1], i) {
 			a = lookThrough(a.Args[0])
 			hit = true
 			continue
@@ -479,6 +479,76 @@ func Select(a, i *Term) *Term {
 		a = orig
 	}
 	return App("select", a.S.elemSort(), a, i)
+}
+
+// linParts decomposes a term into base + constant + a set of non-negative
+// allocation advances (adv!N), looking through names.
+func linParts(t *Term) (base *Term, off *big.Int, advs map[string]bool, ok bool) {
+	off = new(big.Int)
+	advs = map[string]bool{}
+	ok = true
+	var walk func(t *Term, depth int)
+	walk = func(t *Term, depth int) {
+		t = lookThrough(t)
+		switch {
+		case t.lit != nil:
+			off.Add(off, t.lit)
+		case t.Op == "+" && depth < 64:
+			for _, a := range t.Args {
+				walk(a, depth+1)
+			}
+		case len(t.Args) == 0 && strings.HasPrefix(t.Op, "adv!"):
+			advs[t.Op] = true
+		default:
+			if base != nil {
+				ok = false
+				return
+			}
+			base = t
+		}
+	}
+	walk(t, 0)
+	return
+}
+
+func subsetOf(a, b map[string]bool) bool {
+	for k := range a {
+		if !b[k] {
+			return false
+		}
+	}
+	return true
+}
+
+// linDistinct: the two integer terms provably differ (same base and different
+// constants modulo non-negative allocation advances; or a package-level
+// variable's address against a reference allocated during verification).
+func linDistinct(a, b *Term) bool {
+	if a.S != SInt || b.S != SInt {
+		return false
+	}
+	ba, oa, da, ok1 := linParts(a)
+	bb, ob, db, ok2 := linParts(b)
+	if !ok1 || !ok2 {
+		return false
+	}
+	if ba == nil && bb != nil {
+		ba, oa, da, bb, ob, db = bb, ob, db, ba, oa, da
+	}
+	if ba != nil && bb == nil {
+		// literal (address of a global, below 2000000) against alloc0 + k (alloc0 > 2000000)
+		return len(db) == 0 && ba.Op == "alloc0" && len(ba.Args) == 0 && oa.Sign() >= 0 && ob.Sign() >= 0 && ob.Cmp(big.NewInt(2000000)) <= 0
+	}
+	if ba == nil || bb == nil || !same(ba, bb) {
+		return false
+	}
+	if subsetOf(db, da) && oa.Cmp(ob) > 0 {
+		return true // a > b
+	}
+	if subsetOf(da, db) && ob.Cmp(oa) > 0 {
+		return true // b > a
+	}
+	return false
 }
 
 func Store(a, i, v *Term) *Term {
